@@ -55,6 +55,10 @@ type Closure struct {
 
 type UPtr struct{ p Value }
 
+// SymFloat is a float64 whose value is an integral number of seconds held as a (possibly symbolic) int64 scalar;
+// it only supports conversion back to an integer type (time.Duration.Seconds() round trips).
+type SymFloat struct{ sec Sc }
+
 // sliceData is the result of unsafe.SliceData / unsafe.StringData
 type sliceData struct {
 	sl Slice
